@@ -628,6 +628,10 @@ class Messenger(Connection):
                 msgcls = messages.MessageHead
             else:
                 msgcls = contact.Head
+                if len(self.__rx_buf) < 6:
+                    # Wait for the whole fixed-size contact header
+                    self._logger.debug('Partial contact header')
+                    return
 
             # Probe for full message (by reading back encoded data)
             try:
